@@ -58,6 +58,15 @@ type verifiedSig struct {
 	sig []*Term
 }
 
+func allConstZero(bs []*Term) bool {
+	for _, b := range bs {
+		if !b.IsConst() || b.Val != 0 {
+			return false
+		}
+	}
+	return true
+}
+
 func constBytes(n int, v byte) []*Term {
 	out := make([]*Term, n)
 	for i := range out {
@@ -75,8 +84,62 @@ func (p *Path) expand(kind string, in []*Term, n int) []*Term {
 	return out[:n]
 }
 
+type decodeAttempt struct {
+	grp   *groupObj
+	bs    []*Term
+	valid *Term
+}
+
+// decodeValid: is `bs` the encoding of a point of g? Encodings of points the model produced are valid;
+// otherwise a fresh Boolean, functionally consistent (equal bytes => equal answer).
+func (p *Path) decodeValid(g *groupObj, bs []*Term) *Term {
+	for _, a := range p.decodes {
+		if a.grp == g && bytesEqTerm(a.bs, bs).IsTrue() {
+			return a.valid
+		}
+	}
+	v := p.freshVar("point_decodes", BoolSort)
+	for _, a := range p.decodes {
+		if a.grp != g {
+			continue
+		}
+		same := bytesEqTerm(a.bs, bs)
+		if same.IsFalse() {
+			continue
+		}
+		p.addSide(Implies(same, Eq(v, a.valid)))
+	}
+	p.decodes = append(p.decodes, &decodeAttempt{g, bs, v})
+	return v
+}
+
 func (p *Path) mkPoint(g *groupObj, tag []*Term) Iface {
+	p.markValid(g, tag)
 	return Iface{T: p.eng.nativeT("kyber:point"), V: &Native{Kind: "kyber:point", Data: &pointObj{grp: g, tag: tag}}}
+}
+
+// markValid records that tag is the encoding of a point the model itself produced.
+func (p *Path) markValid(g *groupObj, tag []*Term) {
+	if !allConstZero(tag) {
+		known := false
+		for _, a := range p.decodes {
+			if a.grp == g && len(a.bs) == len(tag) && (len(tag) == 0 || a.bs[0] == tag[0]) && bytesEqTerm(a.bs, tag).IsTrue() {
+				known = true
+				break
+			}
+		}
+		if !known {
+			for _, a := range p.decodes {
+				if a.grp == g && !a.valid.IsTrue() {
+					same := bytesEqTerm(a.bs, tag)
+					if !same.IsFalse() {
+						p.addSide(Implies(same, a.valid))
+					}
+				}
+			}
+			p.decodes = append(p.decodes, &decodeAttempt{g, tag, TrueT})
+		}
+	}
 }
 
 func (p *Path) mkScalar(g *groupObj, tag []*Term) Iface {
@@ -377,9 +440,11 @@ func (p *Path) kyberMethod(nat *Native, name string, args []Value, sig *types.Si
 			return self()
 		case "Base":
 			pt.tag, pt.eval = constBytes(pt.grp.pointLen, 1), nil
+			p.markValid(pt.grp, pt.tag)
 			return self()
 		case "Pick":
 			pt.tag, pt.eval = p.pickBytes(args[0], pt.grp.pointLen), nil
+			p.markValid(pt.grp, pt.tag)
 			return self()
 		case "Set":
 			o := pointOf(p, args[0])
@@ -395,6 +460,7 @@ func (p *Path) kyberMethod(nat *Native, name string, args []Value, sig *types.Si
 				p.unsupported("kyber Point.Mul with explicit base (outside the ideal model)")
 			}
 			pt.tag, pt.eval = p.pubTag(scalarOf(p, args[0])), nil
+			p.markValid(pt.grp, pt.tag)
 			return self()
 		case "String":
 			return hexOfBytes(pt.tag)
@@ -411,9 +477,8 @@ func (p *Path) kyberMethod(nat *Native, name string, args []Value, sig *types.Si
 			if len(bs) != pt.grp.pointLen {
 				return p.newError(StrC("kyber: invalid point encoding length"), nil)
 			}
-			// real decoders also reject invalid encodings: nondeterministic failure
-			okv := p.freshVar("point_decodes", BoolSort)
-			if !p.Fork(okv) {
+			// real decoders also reject invalid encodings: validity is an uninterpreted predicate of the bytes
+			if !p.Fork(p.decodeValid(pt.grp, bs)) {
 				return p.newError(StrC("kyber: invalid point encoding"), nil)
 			}
 			pt.tag, pt.eval = append([]*Term(nil), bs...), nil
